@@ -121,6 +121,41 @@ Proof.
 Qed.
 Print Assumptions C19_in_range_if_proposer_in_range.
 
+(* ---- the second public entry point: SequentialTuner.tune_node(graph, node_index) ---- *)
+(* one returned graph with the input's structure; the reported metric is its objective; for deviation >= 0 it
+   is the input graph itself or not worse than it *)
+Theorem C19_tune_node_never_worse_reported : forall obj sp cfg p i g o,
+  tune_node obj sp cfg p i g = Ok o ->
+  exists fg, out_multi o = false /\ out_graphs o = [fg] /\ out_init_metric o = gmv obj g /\
+             out_reported o = RMetric (gmv obj fg) /\ map skel fg = map skel g /\
+             (0 <= c_dev cfg -> fg = g \/ metric_le (gmv obj fg) (gmv obj g) = true).
+Proof.
+  intros obj sp cfg p i g o H.
+  assert (Hok : node_step_ok PTrue g i p).
+  { unfold node_step_ok. destruct (p_steps p); [trivial|]. split.
+    - apply Forall_forall. intros d _ n _ lab v _ _. exact I.
+    - intros n _ lab v _ _. exact I. }
+  destruct (tune_node_spec obj sp cfg PTrue p i g o Hok H) as [fg [A [B [C [D [E F]]]]]].
+  exists fg. repeat split; auto. apply (evolves_skel PTrue). exact E.
+Qed.
+Print Assumptions C19_tune_node_never_worse_reported.
+
+(* labels of the node's step decode into the node's search space => every other parameter of every node
+   (in particular every parameter of every OTHER node) keeps its input value *)
+Theorem C19_tune_node_outside_untouched : forall obj sp cfg p i g o,
+  node_step_ok_b (pb_space sp) g i p = true -> tune_node obj sp cfg p i g = Ok o ->
+  forall fg, In fg (out_graphs o) ->
+  forall j n n', nth_error g j = Some n -> nth_error fg j = Some n' ->
+  forall k, in_space sp (name n) k = false -> dget (params n') k = dget (params n) k.
+Proof.
+  intros obj sp cfg p i g o Hb H fg Hin j n n' H1 H2 k Hk.
+  destruct (tune_node_spec obj sp cfg _ p i g o (node_step_ok_refl _ g i p Hb) H) as [fg' [_ [B [_ [_ [[_ E] _]]]]]].
+  rewrite B in Hin. destruct Hin as [<-|[]].
+  destruct (E j n n' H1 H2) as [_ Hd]. destruct (Hd k) as [Q|[v [_ Q]]]; [exact Q|].
+  unfold pb_space in Q. congruence.
+Qed.
+Print Assumptions C19_tune_node_outside_untouched.
+
 (* ---- totality fails on these input classes (known findings of the pinned tree) ---- *)
 (* SimultaneousTuner / SequentialTuner + multi-objective objective: always an exception
    (finding C19.multiobj-unsupported-raises) *)
@@ -232,6 +267,22 @@ Example ex_nothing_to_tune :
 Proof.
   split; [reflexivity|]. intros k [<-|[<-|[<-|[<-|[<-|[]]]]]]; vm_compute; reflexivity.
 Qed.
+
+(* tune_node needs two search-space parameters on the node; x is initialised, y is not, the objective gets
+   worse: the (unchanged) input is returned with its own metric *)
+Example ex_tune_node_fallback :
+  let s := mkStep [w_assign] w_assign (MFin 9) in
+  tune_node (table_obj [(map params w_graph, FSingle 8); (w_tuned, FSingle 9)]) w_space
+            (mkConfig (Sequential false) (1 # 20) true) (mkProposer [] None [] [s]) 0 w_graph =
+  Ok (mkOutcome false [w_graph] (MFin 8) (RMetric (MFin 8))).
+Proof. vm_compute. reflexivity. Qed.
+
+(* operation names may contain the label separators: the parameter name is what follows the LAST ' | ' *)
+Example ex_separator_in_names :
+  split_last (make_label 0 "scale | shift" "p") = "p" /\
+  split_last (make_label 3 "x || y" "max depth") = "max depth" /\
+  prefix (node_prefix 0 "scale | shift") (make_label 0 "scale | shift" "p") = true.
+Proof. repeat split; vm_compute; reflexivity. Qed.
 
 (* label decoding is python's split(' | ')[-1] *)
 Example ex_split_last :
